@@ -111,6 +111,7 @@ def EFF_SPECS():
              needs=("ToMsec", "DeadlineLimited_deadline", "DeadlineLimited_Remaining")),
         Spec("Wait", "wait.cpp", "sockpuppet::(anonymous namespace)::Wait", "Wait",
              [("fd", D), ("events", D), ("timeout", MS)], BOOL),
+        Spec("WaitPfds", "wait.cpp", "sockpuppet::Wait", "Wait", [("pfds", D), ("timeout", MS)], BOOL),   # the driver's wait
         Spec("WaitReadable", "wait.cpp", "WaitReadable", "WaitReadable", [("fd", D), ("timeout", MS)], BOOL),
         Spec("WaitWritable", "wait.cpp", "WaitWritable", "WaitWritable", [("fd", D), ("timeout", MS)], BOOL),
         Spec("ReceiveNow", "socket_impl.cpp", "ReceiveNow", "ReceiveNow", [("fd", D), ("data", D), ("size", U64)], U64),
@@ -141,7 +142,7 @@ class EFn(C.Fn):
     def __init__(self, repo, spec, specs, available):
         C.Fn.__init__(self, repo, [], {})
         self.spec_e = spec
-        self.specs = {s.cname: s for s in specs}
+        self.specs = {(s.cname, s.nparams): s for s in specs}
         self.available = available        # names that really exist in the generated file so far
         self.tmp = 0
         self.names = set()
@@ -181,8 +182,8 @@ class EFn(C.Fn):
             if name in WORLD_SPELLING and src not in WORLD_SPELLING[name]:
                 return None
             return ("world",) + WORLD[name]
-        if name in self.specs and self.specs[name].nparams == nargs:
-            return ("eff", self.specs[name])
+        if (name, nargs) in self.specs:
+            return ("eff", self.specs[(name, nargs)])
         if name in PURE and len(PURE[name][1]) == nargs:
             return ("pure",) + PURE[name]
         return None
